@@ -209,7 +209,7 @@ def my_worlds(chk, drv, n_worlds):
     # hierarchies: derived classes and classes with stringified annotations; twin_fields: two attributes of one type,
     # one of them with an attrs converter (the `prefer_attrib_converters` cases below need them to tell the attribute's
     # handler from the type's)
-    G = gen.Gen(chk.rng, unions=True, nt=True, coercible=True, hierarchies=True, twin_fields=True)
+    G = gen.Gen(chk.rng, unions=True, nt=True, coercible=True, hierarchies=True, twin_fields=True, enum_lits=True)
     made = attempts = 0
     while made < n_worlds and attempts < n_worlds * 3:
         attempts += 1
@@ -448,6 +448,8 @@ def run(chk: framework.Check):
                           sample={"op": "unstructure", "strategy": sname, "type": terms.ty_sx(ty), "value": terms.canon_sx(x),
                                   "Converter": outcome(uG), "BaseConverter": outcome(uB)})
                 chk.note("un:strategy:" + sname, "ty:" + tyk)
+                if gen.has_enum_lit(w, ty):
+                    chk.note("literal-with-enum-members-reachable:" + sname)
                 if gen.reach_unions(w, ty):
                     chk.note("union-reachable:" + sname)
                 sc = drv.ask("C06USCOPE %s %s %s" % (terms.cfg_sx(cG), terms.ty_sx(ty), terms.obj_sx(x)))
@@ -555,6 +557,8 @@ def run(chk: framework.Check):
     # implementation-only extended stream (unions by tag / unique fields, NamedTuples, registry hooks)
     from harness import ext
     ext.run_c06(chk, 150 if chk.tier == "quick" else 1500)
+    # implementation-only: Literal[...] over members of mix-in enums, position-wise equal literals in one process
+    ext.run_enum_literals(chk, 25 if chk.tier == "quick" else 250, "C06")
     drv.close()
 
 
